@@ -175,7 +175,7 @@ def effect_prog(ctx, r, p):
                         ctx.nontrivial([pn, hid2, "alias"])
         # 3. default on arguments
         for i, a in enumerate(h["args"]):
-            rest = "{" + ",".join(dumps(x["name"]) + ":" + c for j, (x, c) in enumerate(zip(h["args"], ct)) if j != i) + "}"
+            rest = "{" + ",".join(dumps(T.arg_key(x)) + ":" + c for j, (x, c) in enumerate(zip(h["args"], ct)) if j != i) + "}"
             o = r.call({"prog": pn, "op": op, "doc": wrap(rest)})
             ctx.ev()
             acc = "ok" in o["res"]
